@@ -267,12 +267,17 @@ def run(ctx):
                     tree = (rnd.choice(["and", "and", "or"]), tree, ("prop", E.gen_prop(rnd, rnd.choice(variables), max_hedges=1)))
                 ctx.hit("shape:chain of more than 32 operands")
             w = E.gen_weight(rnd, 3)
+            fine = i % 6 == 1  # a weight written with more decimals than the library itself would print
+            if fine:
+                w = rnd.choice([0.0625, 0.3333, 0.0004, 0.12345, 0.9, 1e-4, 0.66667])
             style = i % 4
             text = E.tree_text(rnd, tree, redundant=(0.0, 0.3, 0.0, 0.5)[style], tight=(0.0, 0.0, 1.0, 0.5)[style])
             key = " ".join(text.split())
             mon.expected[key] = W.from_spec(tree)
             mon.weights[key] = w
-            rule_text = f"if {text} then out0 is {spec_out['terms'][0]['name']}{E.weight_text(w, 3)}"
+            rule_text = f"if {text} then out0 is {spec_out['terms'][0]['name']}" + (f" with {w!r}" if fine else E.weight_text(w, 3))
+            if fine:
+                ctx.hit("piece:weight written with more than three decimals")
             try:
                 if i % 2:
                     rule = E.make_rule(fl, rnd, rule_text, engine)
@@ -424,6 +429,7 @@ def run(ctx):
                 ctx.sample("antecedent", {"text": rule_text, "postfix": E.tree_postfix(tree), "conjunction": tname, "disjunction": sname, "row": rows[0], "degree": rule.activation_degree})
         probe.report(ctx)
         reach.report(ctx)
+    ctx.require("piece:weight written with more than three decimals")
     ctx.require("event:term replaced by a same-named object, rule loaded again", "event:terms of the duplicated engine tuned after the duplication")
     ctx.require("event:two batches of the same size in a row", "event:fuzzy output emptied and refilled in place between two evaluations", "law:values handed out earlier are left alone", *[f"environment:{e}" for e in ENVIRONMENTS])
     ctx.require("hook:Rule.activate_with", "hook:Antecedent.load", "compare:degree (generator tree)", "compare:postfix (generator tree)", "discriminates:swapped precedence", "discriminates:right associativity", "discriminates:hedge order", "piece:any", "piece:disabled variable", "piece:output variable proposition", "piece:weight", "shape:mixes and/or", "event:rule object reused for another text", "event:a loaded rule is given a text that is rejected", "shape:chain of more than 32 operands", "event:loaded rule given another text and loaded again through its rule block", "event:fuzzy output holds an activation of an equal-named copy of a term", "event:hedges of a loaded proposition edited in place after an evaluation", "route:rule of a duplicated engine (copy)", "route:rule of a duplicated engine (deepcopy)", "route:rule of a duplicated engine (fll)", "input:2-D block of values per variable")
